@@ -30,7 +30,8 @@ func TestVerif_C12_bidir(t *testing.T) {
 	defer rec.Flush()
 	rec.Require("accepted", "refused", "forged-response", "forged-signature-fields", "authenticated", "unauthenticated",
 		"param-override", "overrides-disabled-and-configured", "substituted:Min_Transport", "substituted:Prefix_Transport",
-		"original-in-exclusion", "station-v4", "station-v6", "dual-stack")
+		"original-in-exclusion", "exclusion-decisive:unlabelled", "exclusion-decisive:labelled-own-transport", "exclusion-decisive:labelled-other-transport",
+		"station-v4", "station-v6", "dual-stack")
 	e := C12NewEnv(t)
 	if p := vh.ReplayFile(); p != "" {
 		var c C12Case
